@@ -152,3 +152,159 @@ def inline_unknown_helpers(facts):
         if raw is not None:
             out[f.path] = Fn(raw)
     return out, done
+
+
+# ------------------------------------------------------------------------------------------- combinator desugaring
+# `x.map(|p| ..)`, `x.map_err(|e| ..)`, `x.ok_or_else(|| ..)`, `x.and_then(|p| ..)`, `x.unwrap_or_else(|e| ..)` with a closure
+# written in the crate are rewritten into the `match` they abbreviate (closure body spliced in).  A maintainer moves freely
+# between the two spellings; the rules should see one program.
+# spec: callee regex -> (input family, {variant: action}); action = ("pass",) | ("payload",) | ("rewrap", V) | ("closure", wrap V|None, takes_payload)
+COMBINATORS = [
+    (r"^std::result::Result::<T, E>::map$", "Result", "Result", {"Ok": ("closure", "Ok", True), "Err": ("pass",)}),
+    (r"^std::result::Result::<T, E>::map_err$", "Result", "Result", {"Ok": ("pass",), "Err": ("closure", "Err", True)}),
+    (r"^std::option::Option::<T>::map$", "Option", "Option", {"Some": ("closure", "Some", True), "None": ("pass",)}),
+    (r"^std::option::Option::<T>::ok_or_else$", "Option", "Result", {"Some": ("rewrap", "Ok"), "None": ("closure", "Err", False)}),
+    (r"^std::result::Result::<T, E>::and_then$", "Result", "Result", {"Ok": ("closure", None, True), "Err": ("pass",)}),
+    (r"^std::option::Option::<T>::and_then$", "Option", "Option", {"Some": ("closure", None, True), "None": ("pass",)}),
+    (r"^std::result::Result::<T, E>::unwrap_or_else$", "Result", None, {"Ok": ("payload",), "Err": ("closure", None, True)}),
+    (r"^std::option::Option::<T>::unwrap_or_else$", "Option", None, {"Some": ("payload",), "None": ("closure", None, False)}),
+]
+FAMILY = {"Result": ("std::result::Result", [[0, "Ok"], [1, "Err"]]), "Option": ("std::option::Option", [[0, "None"], [1, "Some"]])}
+
+
+def _agg(adt, variant, ops):
+    vidx = dict((n, i) for i, n in FAMILY["Result" if adt.endswith("Result") else "Option"][1])[variant]
+    return {"k": "agg", "ak": "adt", "adt": adt, "variant": variant, "vidx": vidx, "fields": [str(i) for i in range(len(ops))], "ops": ops}
+
+
+def _closure_of(raw, local):
+    """def path of the closure stored in `local` (its aggregate statement), or None"""
+    hits = []
+    for b in raw["blocks"]:
+        for s in b["stmts"]:
+            if s["k"] == "assign" and s["place"]["l"] == local and not s["place"]["p"]:
+                rv = s["rv"]
+                if rv["k"] == "agg" and rv.get("ak") == "closure":
+                    hits.append(rv.get("closure"))
+                else:
+                    hits.append(None)
+    return hits[0] if len(hits) == 1 else None
+
+
+def _desugar_one(raw, bi, spec, closure_raw):
+    fam_in, fam_out, actions = spec[1], spec[2], spec[3]
+    blk = raw["blocks"][bi]
+    t = blk["term"]
+    span = t["span"]
+    x = t["args"][0]
+    if x["k"] == "const" or x["place"]["p"]:
+        return False
+    xl, xty = x["place"]["l"], x["place"].get("ty", "?")
+    dest, target = t["dest"], t.get("target")
+    if target is None:
+        return False
+    adt_in, vars_in = FAMILY[fam_in]
+    adt_out = FAMILY[fam_out][0] if fam_out else None
+
+    def new_local(ty, name=None):
+        raw["locals"].append({"ty": ty, "name": name})
+        return len(raw["locals"]) - 1
+
+    def new_block():
+        raw["blocks"].append({"stmts": [], "term": None, "cleanup": False})
+        return len(raw["blocks"]) - 1
+
+    d = new_local("isize")
+    blk["stmts"].append({"k": "assign", "place": {"l": d, "p": [], "ty": "isize"},
+                         "rv": {"k": "discr", "place": {"l": xl, "p": [], "ty": xty}, "adt": adt_in, "vars": vars_in}, "span": span, "expn": None})
+    arms = {}
+    for vi, vn in vars_in:
+        arms[vn] = new_block()
+    blk["term"] = {"k": "switch", "discr": {"k": "move", "place": {"l": d, "p": [], "ty": "isize"}}, "dty": "isize",
+                   "targets": [[vars_in[0][0], arms[vars_in[0][1]]]], "otherwise": arms[vars_in[1][1]], "span": span, "expn": t.get("expn")}
+    for vi, vn in vars_in:
+        ab = arms[vn]
+        has_payload = vn != "None"
+        pl = None
+        if has_payload:
+            pl = new_local("?")
+            raw["blocks"][ab]["stmts"].append({"k": "assign", "place": {"l": pl, "p": [], "ty": "?"}, "rv": {"k": "use", "op": {"k": "move", "place": {
+                "l": xl, "p": [{"k": "downcast", "v": vn, "i": vi}, {"k": "field", "i": 0, "n": "0", "adt": adt_in, "ty": "?"}], "ty": "?"}}}, "span": span, "expn": None})
+        act = actions[vn]
+        if act[0] == "pass":
+            ops = [{"k": "move", "place": {"l": pl, "p": [], "ty": "?"}}] if has_payload else []
+            raw["blocks"][ab]["stmts"].append({"k": "assign", "place": dest, "rv": _agg(adt_out or adt_in, vn, ops), "span": span, "expn": None})
+            raw["blocks"][ab]["term"] = {"k": "goto", "target": target, "span": span, "expn": None}
+        elif act[0] == "payload":
+            raw["blocks"][ab]["stmts"].append({"k": "assign", "place": dest, "rv": {"k": "use", "op": {"k": "move", "place": {"l": pl, "p": [], "ty": "?"}}}, "span": span, "expn": None})
+            raw["blocks"][ab]["term"] = {"k": "goto", "target": target, "span": span, "expn": None}
+        elif act[0] == "rewrap":
+            raw["blocks"][ab]["stmts"].append({"k": "assign", "place": dest, "rv": _agg(adt_out, act[1], [{"k": "move", "place": {"l": pl, "p": [], "ty": "?"}}]), "span": span, "expn": None})
+            raw["blocks"][ab]["term"] = {"k": "goto", "target": target, "span": span, "expn": None}
+        else:
+            _, wrap, takes = act
+            rty = closure_raw["locals"][0]["ty"]
+            r = new_local(rty)
+            wb = new_block()
+            args = [t["args"][1]]
+            if takes and has_payload and closure_raw["arg_count"] >= 2:
+                args.append({"k": "move", "place": {"l": pl, "p": [], "ty": "?"}})
+            if len(args) != closure_raw["arg_count"]:
+                return None     # unexpected closure signature: leave the call alone (caller restores)
+            raw["blocks"][ab]["term"] = {"k": "call", "callee": closure_raw["path"], "args": args, "dest": {"l": r, "p": [], "ty": rty}, "target": wb,
+                                         "span": span, "expn": None}
+            _inline_call(raw, ab, closure_raw)
+            if wrap:
+                raw["blocks"][wb]["stmts"].append({"k": "assign", "place": dest, "rv": _agg(adt_out, wrap, [{"k": "move", "place": {"l": r, "p": [], "ty": rty}}]), "span": span, "expn": None})
+            else:
+                raw["blocks"][wb]["stmts"].append({"k": "assign", "place": dest, "rv": {"k": "use", "op": {"k": "move", "place": {"l": r, "p": [], "ty": rty}}}, "span": span, "expn": None})
+            raw["blocks"][wb]["term"] = {"k": "goto", "target": target, "span": span, "expn": None}
+    return True
+
+
+def desugar_combinators(fns_by_path, f):
+    """-> new Fn with every closure-taking combinator call (closure written in this crate) replaced by its match; None if nothing changed"""
+    raw = None
+    changed = False
+    used = set()
+    for _ in range(4):
+        cur = raw if raw is not None else f.raw
+        todo = []
+        for bi, b in enumerate(cur["blocks"]):
+            t = b["term"]
+            if b.get("cleanup") or not t or t["k"] != "call" or len(t.get("args") or []) != 2:
+                continue
+            spec = next((c for c in COMBINATORS if re.search(c[0], t.get("callee") or "")), None)
+            if spec is None:
+                continue
+            a1 = t["args"][1]
+            if a1["k"] == "const" or a1["place"]["p"]:
+                continue
+            cpath = _closure_of(cur, a1["place"]["l"])
+            cf = fns_by_path.get(cpath) if cpath else None
+            if cf is None or len(cf.blocks) > 40:
+                continue
+            todo.append((bi, spec, cf))
+        if not todo:
+            break
+        if raw is None:
+            raw = copy.deepcopy(f.raw)
+        for bi, spec, cf in todo:
+            snapshot = copy.deepcopy(raw)
+            res = _desugar_one(raw, bi, spec, cf.raw)
+            if res is None or res is False:
+                raw.clear()
+                raw.update(snapshot)
+                # mark as not desugarable to avoid looping: rename callee marker
+                raw["blocks"][bi]["term"] = dict(raw["blocks"][bi]["term"], callee=(raw["blocks"][bi]["term"].get("callee") or "") + " ")
+            else:
+                changed = True
+                used.add(cf.path)
+    if raw is None or not changed:
+        return None
+    for b in raw["blocks"]:
+        if b["term"] and b["term"]["k"] == "call" and (b["term"].get("callee") or "").endswith(" "):
+            b["term"]["callee"] = b["term"]["callee"].rstrip()
+    g = Fn(raw)
+    g.desugared_closures = used
+    return g
